@@ -20,9 +20,9 @@ func init() {
 				"(HOST) transportResolver.host - the name the TLS layer verifies (C17.SNI) - derives only from the request URL's host (URL.Host, its SplitHostPort host part, or URL.Hostname()), never from the Host header field or a resolution result; " +
 				"(AUTH) req.Host is filled from URL.Host, only when empty, before URL.Host is overwritten, and the host/port split also happens before; " +
 				"(POOL) the value written to URL.Host (the connection-pool key) is a Sprintf whose three arguments are the port, the scheme and the host, separated by literal text; " +
-				"(UPGRADE) Scheme becomes https only under {the origin has HTTPS records, scheme is http}, on the clone; " +
+				"(UPGRADE) Scheme becomes https only under {the origin has HTTPS records, scheme is http}, on the clone; the resolver folds http to https when it builds the HTTPS query name (the C14.N2 rules), so the origin's records are found for http URLs on any port; " +
 				"(H3) useH3 becomes true only under {HTTP3Transport != nil, service-mode record, ALPN contains h3}; the scan moves on to a less-preferred record only past an alias record or a record that offers none of h3, h2, http/1.1 and no default ALPN; the h3 branch gives the HTTP/3 round-tripper a result filtered with {h3}/must-have, the other branch one filtered with {h2, http/1.1}; in the filter every 'keep' is under Priority != 0 and one of the three compatibility conditions; " +
-				"(BIND) resp.Request is set to the caller's request and nothing is stored through the caller's request (all writes go to its Clone). " +
+				"(BIND) every response-carrying return of RoundTrip is dominated by the store of the caller's request into that response's Request field, and nothing is stored through the caller's request (all writes go to its Clone). " +
 				"Not decided: what net/http does with the rewritten request (pooling, Host header emission) - library behaviour, trusted.",
 			Assumptions: []string{"net/http.Transport keys its connection pool on scheme and URL.Host and uses DialTLSContext for https"},
 		},
@@ -211,6 +211,13 @@ func c19Rules(p *core.Prog, r *core.Run) {
 		r.Check("C19.UPGRADE", "scheme-upgrade", onClone && v.Name == `"https"` && hasRR && isHTTP, p.InstrPos(st), "http is upgraded to https only when the origin publishes HTTPS records (%v) and the scheme is http (%v), on the clone (%v)", hasRR, isHTTP, onClone)
 	}
 	r.Floor("C19.UPGRADE", 1)
+	// the records that trigger the upgrade are found only if an http URL asks for
+	// the https query name of its origin (RFC 9460 9.5)
+	if rs := p.Func(Ech, "(*Resolver).Resolve"); rs != nil {
+		c14QueryName(p, r, rs, "C19.UPGRADE.query")
+	} else {
+		r.Undecided("C19.UPGRADE.query", "Resolve", "-", "Resolve not found")
+	}
 
 	// --- H3
 	c19H3(p, r, rt)
@@ -223,6 +230,24 @@ func c19Rules(p *core.Prog, r *core.Run) {
 		r.Check("C19.BIND", "resp.Request", okBind, p.InstrPos(st), "the response is bound to the caller's original request")
 	}
 	r.Check("C19.BIND", "resp.Request:set", okBind, p.Pos(rt.Pos()), "resp.Request is set")
+	// every response handed back - whichever round-tripper produced it - went through that store
+	nResp := 0
+	for _, ret := range core.Returns(rt) {
+		if len(ret.Results) != 2 || isNilConst(ret.Results[0]) {
+			continue
+		}
+		nResp++
+		resp := p.X(ret.Results[0])
+		bound := false
+		for _, st := range storesTo(p, []*ssa.Function{rt}, "Request") {
+			a := p.X(st.Addr)
+			if a.Op == "field" && a.Args[0].String() == resp.String() && p.X(st.Val).Val == ssa.Value(reqP) && (st.Block() == ret.Block() || st.Block().Dominates(ret.Block())) {
+				bound = true
+			}
+		}
+		r.Check("C19.BIND", fmt.Sprintf("return#%d", nResp), bound, p.InstrPos(ret), "the response returned here (%s) had its Request set to the caller's request on every path (an early return from the HTTP/3 branch would hand back the internal clone with the pool-key URL)", short(resp))
+	}
+	r.Check("C19.BIND", "returns", nResp >= 1, p.Pos(rt.Pos()), "RoundTrip has %d response-carrying returns", nResp)
 	nBad := 0
 	for _, l := range lits {
 		for _, b := range l.Blocks {
